@@ -70,6 +70,7 @@ class Abs:
         self.cons = []
         self.n = 0
         self.nonzero = []  # denominators assumed non-zero (recorded assumption)
+        self._uncond = {}
         self.defs = {}  # atom name -> (op, arg, [defining lemmas])
         self.pair = []  # (frozenset(atom names), lemma) relating two atoms
 
@@ -684,6 +685,19 @@ class SR:
         if self.c is not None:
             return SR(ABS.app("sqrt", rv(self.c)))._norm()
         return SR(ABS.app("sqrt", self.plain()))
+
+    def sqrt_of_sum_of_squares(self):
+        """sqrt of a term that is a sum of squares of reals by construction (norms): the lemma r*r == arg is unconditional."""
+        r = self.sqrt()
+        if r.c is None and not r.d and z3.is_const(r.t):
+            nm = r.t.decl().name()
+            if nm in ABS.defs and not ABS._uncond.get(nm):
+                ABS._uncond[nm] = True
+                arg = ABS.defs[nm][1]
+                lem = r.t * r.t == arg
+                ABS.defs[nm][2].append(lem)
+                ABS.cons.append(lem)
+        return r
 
     def _fn(self, op):
         return SR(ABS.app(op, self.plain()))._norm()
